@@ -310,3 +310,20 @@ fn vk_generate_dump_control_flow() {
         }
     }
 }
+
+// [C] the 18 stream types generate_dump can emit are pairwise distinct and none is the "unused" value 0 (C01:
+// "a stream of a type that occurs only once")
+#[kani::proof]
+fn vk_stream_types_distinct() {
+    let t = [
+        MDStreamType::ThreadListStream as u32, MDStreamType::ModuleListStream as u32, MDStreamType::MemoryListStream as u32,
+        MDStreamType::ExceptionStream as u32, MDStreamType::SystemInfoStream as u32, MDStreamType::MemoryInfoListStream as u32,
+        MDStreamType::LinuxCpuInfo as u32, MDStreamType::LinuxProcStatus as u32, MDStreamType::LinuxLsbRelease as u32,
+        MDStreamType::LinuxCmdLine as u32, MDStreamType::LinuxEnviron as u32, MDStreamType::LinuxAuxv as u32,
+        MDStreamType::LinuxMaps as u32, MDStreamType::LinuxDsoDebug as u32, MDStreamType::MozLinuxLimits as u32,
+        MDStreamType::ThreadNamesStream as u32, MDStreamType::HandleDataStream as u32, MDStreamType::MozSoftErrors as u32,
+    ];
+    let (i, j): (usize, usize) = (kani::any(), kani::any());
+    kani::assume(i < 18 && j < 18 && i != j);
+    assert!(t[i] != t[j] && t[i] != 0);
+}
